@@ -136,6 +136,7 @@ const magicByteOffset = 16
 // could not be read.
 func (rs *RecordSet) ReadFrom(r io.Reader) (int64, error) {
 	d, _ := r.(*decoder)
+	embedded := d != nil
 	if d == nil {
 		d = &decoder{
 			reader: r,
@@ -155,7 +156,7 @@ func (rs *RecordSet) ReadFrom(r io.Reader) (int64, error) {
 		return 4, nil
 	}
 
-	if int(size) > d.remain {
+	if embedded && int(size) > d.remain {
 		// The record set cannot be larger than the message that carries it.
 		d.discardAll()
 		return int64(limit - d.remain), io.ErrUnexpectedEOF
